@@ -87,9 +87,20 @@ M = [
  ("c09_schedule_nil_on_full", "C09", "worker/pool.go", "\tif err == fpgo.ErrQueueIsFull {\n\t\treturn ErrWorkerPoolJobQueueIsFull\n\t}\n\n\treturn err", "\tif err == fpgo.ErrQueueIsFull {\n\t\treturn nil\n\t}\n\n\treturn err"),
  ("c09_panic_handler_twice", "C09", "worker/pool.go", "\t\t\t\t\thandler(panic)\n", "\t\t\t\t\thandler(panic)\n\t\t\t\t\tif isBusy && workerPoolSelf.workerCount > 1 {\n\t\t\t\t\t\thandler(panic)\n\t\t\t\t\t}\n"),
  ("c09_closed_pool_accepts", "C09", "worker/pool.go", "func (workerPoolSelf *DefaultWorkerPool) Schedule(fn func()) error {\n\tif workerPoolSelf.IsClosed() {\n\t\treturn ErrWorkerPoolIsClosed\n\t}", "func (workerPoolSelf *DefaultWorkerPool) Schedule(fn func()) error {\n\tif workerPoolSelf.IsClosed() && workerPoolSelf.isJobQueueClosedWhenClose {\n\t\treturn ErrWorkerPoolIsClosed\n\t}"),
+ ("c15_notify_without_guard", "C15", "queue.go", "\tif q.isClosed.Get() {\n\t\treturn\n\t}\n\n\tq.loadWorkerCh.Offer(1)\n\tq.freeNodeWorkerCh.Offer(1)", "\tq.loadWorkerCh.Offer(1)\n\tq.freeNodeWorkerCh.Offer(1)"),
+ ("c15_loader_no_recheck", "C15", "queue.go", "\t\tif q.isClosed.Get() {\n\t\t\tq.lock.Unlock()\n\t\t\tbreak\n\t\t}\n", ""),
+ ("c15_offer_no_recheck_under_lock", "C15", "queue.go", "\tdefer q.lock.Unlock()\n\n\tif q.isClosed.Get() {\n\t\treturn ErrQueueIsClosed\n\t}\n\n\tpoolCount := q.pool.Count()", "\tdefer q.lock.Unlock()\n\n\tpoolCount := q.pool.Count()"),
+ ("c15_close_channels_before_flag", "C15", "queue.go", "\tq.isClosed.Set(true)\n\tverifAt(\"bcq.Close.flagged\")\n\tclose(q.loadWorkerCh)\n\tverifAt(\"bcq.Close.loadChClosed\")\n\tclose(q.blockingQueue)\n", "\tverifAt(\"bcq.Close.flagged\")\n\tclose(q.loadWorkerCh)\n\tverifAt(\"bcq.Close.loadChClosed\")\n\tclose(q.blockingQueue)\n\tq.lock.Unlock()\n\truntime.Gosched()\n\tq.lock.Lock()\n\tq.isClosed.Set(true)\n"),
+ ("c15_post_without_recover", "C15", "handler.go", "\tdefer func() {\n\t\trecover()\n\t}()\n", ""),
+ ("c15_cor_no_recheck", "C15", "cor.go", "\tif corSelf.IsDone() {\n\t\tcorSelf.closedM.Unlock()\n\t\treturn\n\t}\n\tfn()", "\tfn()"),
+ ("c15_yieldfrom_waits_when_not_sent", "C15", "cor.go", "\tif !target.receive(corSelf, in) {", "\tif !target.receive(corSelf, in) && false {"),
+ ("c15_pool_close_keeps_running_jobs_out", "C15", "worker/pool.go", "\tif workerPoolSelf.isJobQueueClosedWhenClose {\n\t\tworkerPoolSelf.jobQueue.Close()\n\t}", "\tif workerPoolSelf.isJobQueueClosedWhenClose {\n\t\tworkerPoolSelf.jobQueue.Close()\n\t\tclose(workerPoolSelf.spawnWorkerCh)\n\t}"),
+ ("c15_poll_ignores_closed", "C15", "queue.go", "\tcase val, ok := <-q:\n\t\tif !ok {\n\t\t\treturn *new(T), ErrQueueIsClosed\n\t\t}\n\t\treturn val, nil\n\tdefault:\n\t\treturn *new(T), ErrQueueIsEmpty", "\tcase val := <-q:\n\t\treturn val, nil\n\tdefault:\n\t\treturn *new(T), ErrQueueIsEmpty"),
+ ("c15_schedule_after_close_accepted", "C15", "worker/pool.go", "func (workerPoolSelf *DefaultWorkerPool) Schedule(fn func()) error {\n\tif workerPoolSelf.IsClosed() {\n\t\treturn ErrWorkerPoolIsClosed\n\t}", "func (workerPoolSelf *DefaultWorkerPool) Schedule(fn func()) error {\n\tif workerPoolSelf.IsClosed() && workerPoolSelf.isJobQueueClosedWhenClose {\n\t\treturn ErrWorkerPoolIsClosed\n\t}"),
 ]
 
 EXTRA = {
+ "c15_close_channels_before_flag": ("queue.go", "import (\n\t\"errors\"\n\t\"sync\"\n\t\"time\"\n)", "import (\n\t\"errors\"\n\t\"runtime\"\n\t\"sync\"\n\t\"time\"\n)"),
  "c13_shared_reply_channel": ("actor.go", "var ErrActorAskTimeout = fmt.Errorf(\"ErrActorAskTimeout\")", "var ErrActorAskTimeout = fmt.Errorf(\"ErrActorAskTimeout\")\n\nvar askSharedCh sync.Map"),
  "c13_shared_reply_channel#2": ("actor.go", "\tcase result = <-ch:\n\t\tclose(ch)", "\tcase result = <-ch:"),
  "c13_shared_reply_channel#3": ("actor.go", "\tch := askSelf.AskChannel(target)\n\tdefer close(ch)\n\t// var err error", "\tch := askSelf.AskChannel(target)\n\t// var err error"),
